@@ -573,8 +573,9 @@ Qed.
 (* UnusedVariables: the findings are one per unused variable, in the order given; the set it
    leaves behind only depends on WHICH texts were shortened *)
 Definition uv_finding (ns : list node) (ie : nat * expr) : finding :=
-  mkFinding "UnusedVariables" "SUSPICIOUS"
-            (var_name (fst ie) ++ " " ++ shorten (call_text crepr ns (snd ie))).
+  mkF "UnusedVariables" 0 "UnusedVariables" "SUSPICIOUS"
+      (var_name (fst ie) ++ " " ++ shorten (call_text crepr ns (snd ie)))
+      [BStr (var_name (fst ie)); BStr (shorten (call_text crepr ns (snd ie)))].
 Definition uv_text (ns : list node) (ie : nat * expr) : string := shorten (call_text crepr ns (snd ie)).
 
 Lemma uv_fst : forall ns un d, fst (unused_variables_an crepr ns un d) = map (uv_finding ns) un.
